@@ -231,8 +231,16 @@ class Effects:
             callee = self.ctx.prog.funcs[r[1]]
             ret = self._ret_origins(callee)
             out = set()
-            for o in ret:
-                out |= self._map_origin(fn, c, callee, o, at, _seen, bound)
+            # `x = f(x, y)` in a loop: the origin of the argument leads back to this very call; the second visit adds nothing
+            busy = self.__dict__.setdefault("_call_busy", set())
+            if id(c) in busy:
+                return frozenset()
+            busy.add(id(c))
+            try:
+                for o in ret:
+                    out |= self._map_origin(fn, c, callee, o, at, _seen, bound)
+            finally:
+                busy.discard(id(c))
             return frozenset(out or {"fresh"})
         if r is not None and r[0] == "ext":
             return frozenset({"fresh"})
